@@ -228,15 +228,23 @@ def _r1(repo, L, m, ba):
 # ------------------------------------------------------------------------------ R2
 
 
-def _guard_min_owners(test) -> int | None:
+def _guard_min_owners(test, fn=None) -> int | None:
     """Least value of the premise count that satisfies a guard on it (None = not a count guard).
-    Accepts both orientations: `count > 1`, `1 < count`, `count == 2`, `2 <= count`, ..."""
+    Accepts both orientations: `count > 1`, `1 < count`, `count == 2`, `2 <= count`, ...  A count is `len(...)`, an attribute
+    or name that says so, or a local of `fn` (whatever it is called) whose every definition is a `len(...)` call."""
+    if fn is None:
+        fn = getattr(test, "_func", None)
     if isinstance(test, ast.Compare) and len(test.ops) == 1:
         l, r, op = test.left, test.comparators[0], test.ops[0]
 
         def is_count(e):
             t = norm(e)
-            return "count" in t or t.startswith("len(")
+            if "count" in t or t.startswith("len("):
+                return True
+            if isinstance(e, ast.Name) and fn is not None:
+                ds_ = local_defs(fn, e.id)
+                return bool(ds_) and all(isinstance(d_, ast.Call) and dotted(d_.func) == "len" for d_ in ds_)
+            return False
 
         cl, cr = try_fold(l, default=None), try_fold(r, default=None)
         if is_count(l) and isinstance(cr, int):
